@@ -616,6 +616,20 @@ func genDefrag(ctx *Ctx, emit func(any, string)) {
 	emit(mk([]int{6}, ints(1, 2, 3, 4, 5, 6, 0, 0, 0, 0, 0, 12)), "witness")
 	emit(mk([]int{7}, ints(1, 2, 3, 4, 5, 6, 0, 0, 0, 0, 0, 12)), "witness")
 	emit(mk(nil, ints(0, 0, 0, 0, 0, 9)), "witness")
+	// explicit scan limits above the default of fifty, with nil runs between fifty and the limit
+	for _, w := range [][3]int{{60, 55, 80}, {52, 50, 60}, {70, 3, 100}, {51, 51, 52}} {
+		var vs []int
+		vs = append(vs, 1)
+		for k := 0; k < w[0]; k++ {
+			vs = append(vs, 0)
+		}
+		vs = append(vs, 2)
+		for k := 0; k < w[1]; k++ {
+			vs = append(vs, 0)
+		}
+		emit(mk([]int{w[2]}, ints(vs...)), "witness")
+		emit(mk([]int{w[2]}, &Node{T: "stack", Kind: "AND", Els: []*Node{ints(vs...), dfLeaf(5)}}), "witness")
+	}
 	{
 		n := ints(0, 0, 0, 0, 0, 9)
 		n.Opt = 32
